@@ -700,6 +700,98 @@ func c01inboundBurst(nat natSpec, bound int, strict bool) *explore.Scenario {
 	return sc
 }
 
+// c01loopback: several threads deliver into ONE socket at the same time without a common router goroutine
+// in between: two sockets of the host write to it over loopback (the write hands the datagram to the
+// destination socket in the writer's own thread) while a routed datagram from another host arrives through
+// the root router.  Nothing may be lost, duplicated or reordered per sender.
+func c01loopback(bound int, strict bool) *explore.Scenario {
+	name := "two loopback writers and one routed sender deliver into one wildcard-bound socket"
+	if strict {
+		name += " [strict deviations]"
+	}
+	sc := &explore.Scenario{Name: name, Bound: bound}
+	sc.Cfg.Horizon = 5 * time.Second
+	sc.Cfg.Strict = strict
+	sc.Cfg.RandMenu = func(n int64) []int64 { return []int64{0} }
+	sc.Make = func() (func(), func(*zzvsched.Exec) (string, *explore.Violation)) {
+		var viol *explore.Violation
+		var sink *rsock
+		finished := false
+		body := func() {
+			w := newWorld()
+			w.router("root", "1.2.3.0/24", "", nil, nil)
+			w.host("W1", "root", "1.2.3.10")
+			w.host("W2", "root", "1.2.3.20")
+			sink = w.sock("W1", "*", 7000, "")
+			l1 := w.sock("W1", "127.0.0.1", 6001, "")
+			l2 := w.sock("W1", "127.0.0.1", 6002, "")
+			far := w.sock("W2", "", 6003, "")
+			if err := w.routers["root"].Start(); err != nil {
+				panic(err)
+			}
+			zzvsched.WaitQuiet(time.Millisecond)
+			send := func(tag string, from *rsock, dst string, k int) {
+				zzvsched.GoNamed("sender-"+tag, func() {
+					for i := 0; i < k; i++ {
+						if _, err := from.conn.WriteTo([]byte(fmt.Sprintf("%s%d", tag, i)), &net.UDPAddr{IP: net.ParseIP(dst), Port: 7000}); err != nil {
+							viol = &explore.Violation{Sig: "C01 write-failed", Msg: name + ": " + err.Error()}
+						}
+					}
+				})
+			}
+			send("a", l1, "127.0.0.1", 2)
+			send("b", l2, "127.0.0.1", 2)
+			send("c", far, "1.2.3.10", 1)
+			zzvsched.WaitQuiet(time.Millisecond)
+			finished = true
+		}
+		check := func(ex *zzvsched.Exec) (string, *explore.Violation) {
+			var all []string
+			per := map[byte][]string{}
+			srcOf := map[byte]string{'a': "127.0.0.1:6001", 'b': "127.0.0.1:6002", 'c': "1.2.3.20:6003"}
+			var bad string
+			if sink != nil {
+				for _, it := range sink.got {
+					all = append(all, string(it.payload))
+					if len(it.payload) != 2 || srcOf[it.payload[0]] == "" {
+						bad = fmt.Sprintf("unknown payload %q", it.payload)
+						continue
+					}
+					per[it.payload[0]] = append(per[it.payload[0]], string(it.payload))
+					if it.src != srcOf[it.payload[0]] {
+						bad = fmt.Sprintf("%q arrived with source %s, want %s", it.payload, it.src, srcOf[it.payload[0]])
+					}
+				}
+			}
+			out := strings.Join(all, ",")
+			if len(ex.Panics) > 0 {
+				return out, &explore.Violation{Sig: "C01 panic", Msg: name + ": panic: " + ex.Panics[0].Value + "\n" + ex.Panics[0].Stack}
+			}
+			if viol != nil {
+				return out, viol
+			}
+			if ex.HorizonHit {
+				return out + " HORIZON", nil
+			}
+			if !finished {
+				return out, &explore.Violation{Sig: "C01 blocked", Msg: fmt.Sprintf("%s: blocked threads: %v", name, ex.Parked)}
+			}
+			if bad != "" {
+				return out, &explore.Violation{Sig: "C01 corrupted", Msg: name + ": " + bad}
+			}
+			for _, tw := range []string{"a:a0,a1", "b:b0,b1", "c:c0"} {
+				tag, want := tw[0], tw[2:]
+				if got := strings.Join(per[tag], ","); got != want {
+					return out, &explore.Violation{Sig: "C01 lost-or-reordered", Msg: fmt.Sprintf("%s: sender %c wrote %s; the socket received %q from it (everything received: %v)", name, tag, want, got, all)}
+				}
+			}
+			return out, nil
+		}
+		return body, check
+	}
+	return sc
+}
+
 func c01concurrent(nat natSpec, nSenders, per, bound int, strict bool, queue int, delay ...time.Duration) *explore.Scenario {
 	name := fmt.Sprintf("concurrent nat=%s senders=%d x%d", nat, nSenders, per)
 	if queue > 0 {
@@ -890,6 +982,7 @@ func init() {
 				// routers that delay: nothing may be left behind in a queue
 				out = append(out, c01concurrent(nats[0], 2, 2, 2, true, 0, time.Millisecond))
 				out = append(out, c01inboundBurst(nats[0], 3, true))
+				out = append(out, c01loopback(2, true))
 				return out
 			}
 			out = append(out, c01plan(c01topos[0], nats[0], 3, 0, 0))
@@ -909,8 +1002,9 @@ func init() {
 			out = append(out, c01closing(2, 3, true), c01closing(2, 1, false), c01closing(1, 2, false), c01rebind(3))
 			out = append(out, c01concurrent(nats[0], 2, 2, 3, true, 0, time.Millisecond), c01concurrent(nats[9], 3, 2, 2, true, 0, 20*time.Millisecond))
 			out = append(out, c01inboundBurst(nats[0], 3, true), c01inboundBurst(nats[4], 2, true))
+			out = append(out, c01loopback(3, true), c01loopback(1, false))
 			return out
 		},
-		Rule:        "topologies {root only; root+LAN; root+2 sibling LANs; root+LAN+nested LAN} with static / automatic / two-address hosts and sockets bound to a specific address, the wildcard, port 0 or dialled, x NAT {9 mapping/filtering combinations, 1:1} x every traffic plan of 2-3 sends over (sending socket) x (every socket address on every network, unbound port, unroutable IPs, loopback, the LAN's own external address, 'the source last observed by socket k'), payload sizes {1500,0,1}, sender buffer overwritten after WriteTo; after each send the system runs to quiescence and every socket's new receptions are compared with the routing/NAT model. Plus 2-3 concurrent senders x 2 datagrams through one NAT to one socket under every schedule within the deviation bound, followed by a reply to every observed source. Plus: one socket of the receiving host is closed while datagrams for it and for a second open socket of that host are in flight (the open socket must receive everything; Close returns; no thread stays blocked on a lock); replies entering a NATed LAN back to back while a LAN-internal sender keeps its router busy (order at the original sender's socket); a socket closed from two threads at once while a third binds its address again (the new socket then receives what is sent there and the address cannot be bound a second time).",
+		Rule:        "topologies {root only; root+LAN; root+2 sibling LANs; root+LAN+nested LAN} with static / automatic / two-address hosts and sockets bound to a specific address, the wildcard, port 0 or dialled, x NAT {9 mapping/filtering combinations, 1:1} x every traffic plan of 2-3 sends over (sending socket) x (every socket address on every network, unbound port, unroutable IPs, loopback, the LAN's own external address, 'the source last observed by socket k'), payload sizes {1500,0,1}, sender buffer overwritten after WriteTo; after each send the system runs to quiescence and every socket's new receptions are compared with the routing/NAT model. Plus 2-3 concurrent senders x 2 datagrams through one NAT to one socket under every schedule within the deviation bound, followed by a reply to every observed source. Plus: one socket of the receiving host is closed while datagrams for it and for a second open socket of that host are in flight (the open socket must receive everything; Close returns; no thread stays blocked on a lock); replies entering a NATed LAN back to back while a LAN-internal sender keeps its router busy (order at the original sender's socket); a socket closed from two threads at once while a third binds its address again (the new socket then receives what is sent there and the address cannot be bound a second time); two loopback writers (delivery in the writer's own thread) and one routed sender delivering into one wildcard-bound socket at once (nothing lost, duplicated or reordered per sender).",
 		Assumptions: []string{"external ports are 'some fresh port': bound to the value first observed, then required to be stable and unique", "no time passes (mapping lifetime 30 s); queues unbounded unless stated"}})
 }
